@@ -182,7 +182,20 @@ impl Ord for Sym {
 
 impl Default for Sym { fn default() -> Sym { Sym::c(0.0) } }
 impl fmt::Debug for Sym { fn fmt(&self, f: &mut fmt::Formatter) -> fmt::Result { write!(f, "n{}", self.0) } }
-impl fmt::Display for Sym { fn fmt(&self, f: &mut fmt::Formatter) -> fmt::Result { write!(f, "n{}", self.0) } }
+/// symbols print as `n<id>`; the formatting parameters the caller passed down (sign, width, precision, `#`) are made
+/// visible as a suffix `[+#w<width>p<precision>]`, so that a container's `Display` that drops them is observable
+impl fmt::Display for Sym { fn fmt(&self, f: &mut fmt::Formatter) -> fmt::Result {
+    write!(f, "n{}", self.0)?;
+    if f.sign_plus() || f.alternate() || f.width().is_some() || f.precision().is_some() {
+        write!(f, "[")?;
+        if f.sign_plus() { write!(f, "+")?; }
+        if f.alternate() { write!(f, "#")?; }
+        if let Some(w) = f.width() { write!(f, "w{}", w)?; }
+        if let Some(p) = f.precision() { write!(f, "p{}", p)?; }
+        write!(f, "]")?;
+    }
+    Ok(())
+} }
 
 macro_rules! binop {
     ($Tr:ident $m:ident $TrA:ident $ma:ident $op:expr) => {
